@@ -9,12 +9,14 @@
 //! document the generator meant, by a structural walker written from the property statement.
 //! The re-parsed real AST is also evaluated by the Lean reference semantics (`c14.eval`, the
 //! `evalExpr` of the theorems) and must agree with the independent evaluator.
+// public so that other properties (C17 injects data values) can reuse the document generator,
+// the recording serializer, the S-expression writer for real expressions and the Lua reader
 #[path = "c14_data.rs"]
-mod data;
+pub mod data;
 #[path = "c14_gen.rs"]
-mod gen;
+pub mod gen;
 #[path = "c14_lua.rs"]
-mod lua;
+pub mod lua;
 
 use crate::model::Model;
 use crate::report::{known_findings, Report, Violation};
@@ -24,6 +26,21 @@ use gen::{Fmt, G, P};
 use lua::{LK, LV};
 use serde_json::{json, Value};
 use std::panic::{catch_unwind, AssertUnwindSafe};
+
+/// For other properties: the Lean model request that computes what `to_expression` must build
+/// for `value` (answer: the expression as an S-expression in the grammar of
+/// lean/DarkluaModel/C14/Driver.lean, or `refused`), from the independent recording serializer.
+/// Compare the answer with `real_expression_sexp` of the real expression.
+pub fn model_ser_request<T: serde::Serialize + ?Sized>(value: &T) -> Result<String, String> {
+    record(value).map(|d| format!("c14.ser {}", d.to_sexp()))
+}
+
+/// the S-expression of a real expression, strict (see `lua::expr_sexp`)
+pub fn real_expression_sexp(e: &darklua_core::nodes::Expression) -> String {
+    let mut s = String::new();
+    lua::expr_sexp(e, true, &mut s);
+    s
+}
 
 // ---------------------------------------------------------------------------------------
 // the walker: does the Lua value equal the data? (written from the property statement)
@@ -471,10 +488,22 @@ impl<'a> Ctx<'a> {
         let model_expr = self.model.ask(&format!("c14.ser {}", d_sexp));
         if model_expr != case.real.expr {
             if !oracle_failed {
-                let mut input = case.origin.clone();
-                input["data"] = json!(d_sexp);
-                let what = format!("model {} / real {}", clip(&model_expr), clip(&case.real.expr));
-                self.violation("correspondence", "toExpr-vs-to_expression", what, input, false);
+                // before reporting a bare model/code difference, search around the input for a
+                // failing input of the property itself: every sub-document that is inside the
+                // property's scope is converted on its own and judged by the oracle
+                match search_failing_part(&case.real.parsed) {
+                    Some((part, what)) => {
+                        let input = json!({"kind": "serde", "found_by": "search around a correspondence difference",
+                            "value": format!("{:?}", part), "around": case.origin});
+                        self.violation("oracle", "value-equals-parsed-data", what, input, true);
+                    }
+                    None => {
+                        let mut input = case.origin.clone();
+                        input["data"] = json!(d_sexp);
+                        let what = format!("model {} / real {}", clip(&model_expr), clip(&case.real.expr));
+                        self.violation("correspondence", "toExpr-vs-to_expression", what, input, false);
+                    }
+                }
             }
         }
         let nontrivial = case.real.data.size() > 1;
@@ -500,6 +529,68 @@ fn clip(s: &str) -> String {
     } else {
         s.to_owned()
     }
+}
+
+/// parsed data -> a serde value that replays it (integers through i64 / u64 as the format
+/// parsers do); `None` for what has no such value
+fn p_to_s(p: &P) -> Option<S> {
+    Some(match p {
+        P::Null => S::Unit,
+        P::Bool(b) => S::Bool(*b),
+        P::Int(i) if *i >= 0 && *i <= u64::MAX as i128 => S::U64(*i as u64),
+        P::Int(i) if *i >= i64::MIN as i128 && *i < 0 => S::I64(*i as i64),
+        P::Int(_) => return None,
+        P::Float(f) => S::F64(*f),
+        P::Str(s) => S::Str(s.clone()),
+        P::Bytes(b) => S::Bytes(b.clone()),
+        P::Arr(xs) => S::Seq(xs.iter().map(p_to_s).collect::<Option<Vec<_>>>()?),
+        P::Obj(kvs) => S::Map(kvs.iter().map(|(k, v)| Some((p_to_s(k)?, p_to_s(v)?))).collect::<Option<Vec<_>>>()?),
+        P::Opaque(_) => return None,
+    })
+}
+
+/// the sub-documents of `p` (itself included, keys too) that lie inside the property's scope and
+/// contain no null / NaN key, converted on their own by the real code and judged by the oracle:
+/// the first one on which the property fails
+fn search_failing_part(p: &P) -> Option<(S, String)> {
+    fn judge(p: &P) -> Option<(S, String)> {
+        if scope(p).is_err() || has_keyless_entry(p) {
+            return None;
+        }
+        let s = p_to_s(p)?;
+        let text = match catch_unwind(AssertUnwindSafe(|| darklua_core::convert_data(&s))) {
+            Ok(Ok(t)) => t,
+            Ok(Err(e)) => return Some((s, format!("conversion refused: {}", e))),
+            Err(_) => return Some((s, "conversion panicked".to_owned())),
+        };
+        match lua::eval_chunk(text.as_bytes()) {
+            Err(e) => Some((s, format!("emitted text {} does not evaluate: {}", clip(&text), e))),
+            Ok(v) => data_eq(p, Some(&v), "$").err().map(|e| (s, format!("{} in {}", e, clip(&text)))),
+        }
+    }
+    // smallest parts first: leaves and small containers make the clearest failing inputs
+    match p {
+        P::Arr(xs) => {
+            for x in xs {
+                if let Some(f) = search_failing_part(x) {
+                    return Some(f);
+                }
+            }
+        }
+        P::Obj(kvs) => {
+            for (k, v) in kvs {
+                if let Some(f) = search_failing_part(k).or_else(|| search_failing_part(v)) {
+                    return Some(f);
+                }
+                // the entry's key on its own, in a one-entry object
+                if let Some(f) = judge(&P::Obj(vec![(k.clone(), P::Bool(true))])) {
+                    return Some(f);
+                }
+            }
+        }
+        _ => {}
+    }
+    judge(p)
 }
 
 /// D -> P for serde-level cases (bytes are strings on the Lua side; wrappers transparent)
@@ -835,8 +926,43 @@ fn long_string_family() -> Vec<String> {
 /// directed documents: each string of the family as an object key, as a value and inside an
 /// array, in every format, converted and bundled under every generator setting
 fn directed_long_strings(ctx: &mut Ctx, rng: &mut Rng) {
+    directed_strings(ctx, rng, long_string_family(), "directed-long-strings");
+    ctx.report.exhaustive.insert(
+        "long-string family (lengths 19/20/21/59/60/61/90 x 0/5/6/7 line feeds x 7 endings x 4 beginnings) as key, value and array element, per format, bundled with dense/readable/retain_lines".into(),
+        true,
+    );
+}
+
+/// strings in which a character that the string writer escapes numerically (`\ddd`: a control
+/// character without a named escape, DEL, NUL) is directly followed by a digit (the escape has
+/// to be padded to three digits), by a letter or by nothing — after zero, one or several
+/// multi-byte characters (2-, 3- and 4-byte encodings), so that byte and character positions differ
+fn escape_digit_family() -> Vec<String> {
+    let mut out = Vec::new();
+    for prefix in ["", "a", "\u{e9}", "\u{65e5}\u{672c}", "\u{1f600}", "a\u{e9}b\u{e9}", "\u{e9}\u{e9}\u{e9}\u{e9}", "\u{7ff}\u{800}\u{ffff}\u{10000}"] {
+        for ctrl in ['\u{1}', '\u{e}', '\u{1b}', '\u{1f}', '\u{7f}', '\0'] {
+            for follower in ["2", "9", "0", "00", "a", "", "\u{e9}1"] {
+                out.push(format!("{}{}{}", prefix, ctrl, follower));
+                out.push(format!("{}{}{}{}{}", prefix, ctrl, follower, ctrl, follower));
+            }
+        }
+    }
+    out
+}
+
+fn directed_escape_strings(ctx: &mut Ctx, rng: &mut Rng) {
+    directed_strings(ctx, rng, escape_digit_family(), "directed-escape-digit");
+    ctx.report.exhaustive.insert(
+        "escape+digit family (8 prefixes with 0..4 multi-byte characters x 6 numerically escaped characters x 7 followers, single and doubled) as key, value and array element, per format, converted and bundled".into(),
+        true,
+    );
+}
+
+/// directed documents: each string of the family as an object key, as a value and inside an
+/// array, in every format, converted and bundled
+fn directed_strings(ctx: &mut Ctx, rng: &mut Rng, family: Vec<String>, tag: &str) {
     let all: Vec<usize> = (0..BUNDLE_GENERATORS.len()).collect();
-    for (n, s) in long_string_family().into_iter().enumerate() {
+    for (n, s) in family.into_iter().enumerate() {
         let g = G::Obj(vec![
             (gen::GKey::Str(s.clone()), G::Num(gen::GNum::Int("1".into()))),
             (gen::GKey::Str("v".into()), G::Str(s.clone())),
@@ -844,7 +970,7 @@ fn directed_long_strings(ctx: &mut Ctx, rng: &mut Rng) {
         ]);
         for (k, fmt) in [Fmt::Json, Fmt::Json5, Fmt::Yaml, Fmt::Toml].into_iter().enumerate() {
             let text = gen::render(&g, fmt, rng);
-            doc_case(ctx, fmt, &text, Some(gen::g_to_p(&g)), "directed-long-strings");
+            doc_case(ctx, fmt, &text, Some(gen::g_to_p(&g)), tag);
             // every generator on one format per string (rotating), the three named generators on all
             if (n + k) % 4 == 0 {
                 bundle_case(ctx, fmt, &text, &all);
@@ -854,8 +980,58 @@ fn directed_long_strings(ctx: &mut Ctx, rng: &mut Rng) {
         }
         txt_case(ctx, &s, n);
     }
+}
+
+/// integers at the edges of the i64 / u64 paths of the serializer (negative ones, >= 2^63 ones,
+/// neighbours of 2^53 and 2^63), each at top level, nested in arrays and objects and (YAML) as
+/// a mapping key, in every format that can express it
+fn directed_integers(ctx: &mut Ctx, rng: &mut Rng) {
+    let two63: i128 = 1 << 63;
+    let two64: i128 = 1 << 64;
+    let mut values: Vec<i128> = vec![
+        0, -1, -2, -255, -256, -65536, -4294967296, -(1 << 53), -(1 << 53) - 1, -(1 << 53) - 3, -two63, -two63 + 1,
+        -two63 + 1024, -two63 + 1025, two63 - 1, two63, two63 + 1, two63 + 1024, two63 + 1025, two63 + 3072,
+        two64 - 1, two64 - 1024, two64 - 1025, two64 - 2048, (1 << 53) + 1, (1 << 53) + 3, 1 << 62, (1 << 62) + 513,
+    ];
+    for k in 54..64 {
+        values.push((1i128 << k) + 1);
+        values.push(-(1i128 << k) - 1);
+    }
+    let all: Vec<usize> = (0..BUNDLE_GENERATORS.len()).collect();
+    for (n, v) in values.into_iter().enumerate() {
+        let num = || G::Num(gen::GNum::Int(v.to_string()));
+        for (k, fmt) in [Fmt::Json, Fmt::Json5, Fmt::Yaml, Fmt::Toml].into_iter().enumerate() {
+            let c = gen::caps(fmt);
+            if v < c.int_min || v > c.int_max {
+                continue;
+            }
+            let mut entries = vec![
+                (gen::GKey::Str("v".into()), num()),
+                (gen::GKey::Str("a".into()), G::Arr(vec![num(), G::Arr(vec![num(), G::Arr(vec![num()])]), G::Obj(vec![(gen::GKey::Str("k".into()), num())])])),
+                (gen::GKey::Str("o".into()), G::Obj(vec![(gen::GKey::Str("p".into()), G::Obj(vec![(gen::GKey::Str("q".into()), G::Arr(vec![num()]))]))])),
+            ];
+            if c.scalar_keys {
+                entries.push((gen::GKey::Num(gen::GNum::Int(v.to_string())), G::Arr(vec![num()])));
+                entries.push((gen::GKey::Str("m".into()), G::Obj(vec![(gen::GKey::Num(gen::GNum::Int(v.to_string())), num())])));
+            }
+            let g = G::Obj(entries);
+            let text = gen::render(&g, fmt, rng);
+            doc_case(ctx, fmt, &text, Some(gen::g_to_p(&g)), "directed-integers");
+            if (n + k) % 4 == 0 {
+                bundle_case(ctx, fmt, &text, &all);
+            } else {
+                bundle_case(ctx, fmt, &text, &[0, 1, 2]);
+            }
+            if fmt != Fmt::Toml {
+                // the bare number and a bare array as whole documents
+                let top = G::Arr(vec![num(), G::Arr(vec![num()])]);
+                let text = gen::render(&top, fmt, rng);
+                doc_case(ctx, fmt, &text, Some(gen::g_to_p(&top)), "directed-integers");
+            }
+        }
+    }
     ctx.report.exhaustive.insert(
-        "long-string family (lengths 19/20/21/59/60/61/90 x 0/5/6/7 line feeds x 7 endings x 4 beginnings) as key, value and array element, per format, bundled with dense/readable/retain_lines".into(),
+        "edge integers (negative, >= 2^63, neighbours of 2^53..2^64) at top level, nested in arrays/objects and as YAML keys, per format, converted and bundled".into(),
         true,
     );
 }
@@ -916,7 +1092,7 @@ fn enumerated(ctx: &mut Ctx, rng: &mut Rng) {
     ctx.report.exhaustive.insert("every UTF-8 byte value as key and value, every keyword as key, per format".into(), true);
 }
 
-const FIXED_DOCS: [(&str, &str); 14] = [
+const FIXED_DOCS: [(&str, &str); 26] = [
     ("json", "null"),
     ("json", "[]"),
     ("json", "{}"),
@@ -931,6 +1107,21 @@ const FIXED_DOCS: [(&str, &str); 14] = [
     ("toml", "a = [1e3, 1.5e3, +1, 0x1F, 0o17, 1_000, inf, -inf, nan, -0, -0.0, 0b11, 1e-7, 9223372036854775807, -9223372036854775808]\n\"\" = 1\n1a = 2\n- = 3\n\"\\u0000\\u007f\" = \"\\u0000\\t\\U0001F600\"\nb = \"\"\"\nx\ny\"\"\"\nc = 'it\\n'\n"),
     ("toml", "[[t]]\nx = 1\n[[t]]\nx = 2\n[do.end]\nnil = true\n"),
     ("toml", "a.b.c = 1\na.b.d = [ [1, 2], [\"x\"] ]\n"),
+    // a non-ASCII character, later a control character without a named escape directly followed by a
+    // digit (the decimal escape must be zero padded), as array elements, values and object keys
+    ("json", "[\"\u{e9}\\u00012\", \"\u{65e5}\u{672c}\\u001b9\", {\"\u{e9}\\u00012\": \"\u{65e5}\u{672c}\\u001b9\", \"\u{1f600}\\u007f0\": [\"a\u{e9}\\u000e7\\u00018\"]}]"),
+    ("json5", "['\u{e9}\\x012', \"\u{65e5}\u{672c}\\u001b9\", {'\u{e9}\\x012': '\u{65e5}\u{672c}\\x1b9', \"\u{1f600}\\x7f0\": ['a\u{e9}\\x0e7\\x018'],}]"),
+    ("yaml", "[\"\u{e9}\\x012\", \"\u{65e5}\u{672c}\\e9\", {\"\u{e9}\\x012\": \"\u{65e5}\u{672c}\\x1b9\", \"\\U0001F600\\x7f0\": [\"a\u{e9}\\x0e7\\x018\"]}]"),
+    ("toml", "a = [\"\u{e9}\\u00012\", \"\u{65e5}\u{672c}\\u001B9\"]\n\"\u{e9}\\u00012\" = \"\u{65e5}\u{672c}\\u001b9\"\n[t]\n\"\\U0001F600\\u007f0\" = [\"a\u{e9}\\u000e7\\u00018\"]\n"),
+    // negative integers and integers >= 2^63, nested in arrays / objects and (YAML) as keys
+    ("json", "[-1, [-9223372036854775808, [9223372036854775808, 18446744073709551615]], {\"a\": {\"b\": [-9007199254740993, 9223372036854776833]}, \"c\": -9223372036854775807}]"),
+    ("json", "{\"neg\": [[-1], [-255], [-65536], [-4294967296]], \"big\": {\"x\": [18446744073709550591, {\"y\": 9223372036854775809}]}}"),
+    ("json5", "{neg: [-1, [-0x10, -9223372036854775808]], big: {x: [18446744073709551615, {y: 9223372036854775808}], z: 0xFFFFFFFFFFFFFFFF}}"),
+    ("yaml", "- -1\n- [-9223372036854775808, [9223372036854775808, 18446744073709551615]]\n- {a: {b: [-9007199254740993, 9223372036854776833]}, c: -9223372036854775807}\n"),
+    ("yaml", "{-1: a, -9223372036854775808: [-2], 9223372036854775808: {18446744073709551615: [18446744073709550591]}, -4294967296: {k: -65536}}"),
+    ("yaml", "? -7\n: [-7, {-8: -8}]\n? 18446744073709551615\n: [18446744073709551615]\n"),
+    ("toml", "neg = [-1, [-9223372036854775808, [-9007199254740993]], { a = -4294967296, b = [-65536] }]\nbig = [9223372036854775807, [9223372036854775806], { c = 9007199254740993 }]\n[t.u]\nv = -9223372036854775807\n"),
+    ("toml", "[[r]]\nn = -1\n[[r]]\nn = [-2, [-3]]\n[s]\n-5 = -5\n"),
 ];
 
 pub fn run(report: &mut Report, replay: Option<&str>) {
@@ -979,6 +1170,8 @@ pub fn run(report: &mut Report, replay: Option<&str>) {
         bundle_case(&mut ctx, Fmt::from_name(f).unwrap(), text, &all_generators);
     }
     directed_long_strings(&mut ctx, &mut rng);
+    directed_escape_strings(&mut ctx, &mut rng);
+    directed_integers(&mut ctx, &mut rng);
 
     let requests = ctx.model.requests;
     let keys = std::mem::take(&mut ctx.keys);
